@@ -329,6 +329,18 @@ def c04_timeout(ctx):
                 v = kwarg(c, "timeout", 0)
                 ctx.check(v is not None and dotted(v) == "self.timeout", c, "get_result receives self.timeout")
     ctx.floor(n_gr, 3, "get_result sites")
+    rr = ctx.repo.func("joblib/_parallel_backends.py", "ParallelBackendBase.retrieve_result")
+    grr = cfg_of(rr)
+    from ..core import cond_facts
+    gets = [c for c in calls_in(rr) if call_attr(c) == "get"]
+    with_t = [c for c in gets if dotted(kwarg(c, "timeout", 0)) == "timeout"]
+    ctx.check(bool(with_t), with_t[0] if with_t else rr, "the legacy retrieval hook forwards the timeout to the future", "ParallelBackendBase.retrieve_result never forwards the timeout")
+    for c in gets:
+        fc = cond_facts(grr.conditions_at(grr.nodes_of(c)))
+        if c in with_t:
+            ctx.check(fc == [("self.supports_timeout", True)], c, "exactly for backends that support timeouts", "the timeout is forwarded under %s" % fc)
+        else:
+            ctx.check(fc == [("self.supports_timeout", False)], c, "and waits without timeout only for backends that do not", "the un-timed wait is taken under %s: a backend that supports timeouts never times out" % fc)
     gsf = F(ctx, "BatchCompletionCallBack.get_status")
     g = cfg_of(gsf)
     cmp_ = [n for n in nodes_of_type(gsf, ast.If) if isinstance(n.test, ast.Compare) and "timeout" in names_in(n.test) and isinstance(n.test.ops[0], (ast.Lt, ast.LtE)) and isinstance(n.test.comparators[0], ast.BinOp) and dotted(n.test.left) == "timeout"]
